@@ -23,12 +23,24 @@ pub const CODES: [&str; 8] = [
     "multiple_statements",
 ];
 
-/// a byte range as token boundaries: `(i j)` = start of token i … end of token j; `(i j s)` = … start of token j
+/// a byte range in token space: `(i j)` = from the start of token i to the end of token j.  A range that ends
+/// inside trivia (two labels end at the *start* of the following token) is reported up to the last token that ends
+/// before it — token space does not see trivia.
 fn span_sx(d: &astdump::Dumper, range: (u32, u32)) -> Sx {
     let a = d.by_start.get(&(range.0 as usize));
-    match (a, d.by_end.get(&(range.1 as usize)), d.by_start.get(&(range.1 as usize))) {
-        (Some(a), Some(b), _) => list(vec![num(*a), num(*b)]),
-        (Some(a), None, Some(b)) => list(vec![num(*a), num(*b), atom("s")]),
+    let end = range.1 as usize;
+    let b = match d.by_end.get(&end) {
+        Some(b) => Some(*b),
+        None => d
+            .tokens
+            .iter()
+            .enumerate()
+            .filter(|(_, t)| t.1 <= end && t.0 < t.1)
+            .map(|(i, _)| i)
+            .last(),
+    };
+    match (a, b) {
+        (Some(a), Some(b)) => list(vec![num(*a), num(b)]),
         _ => list(vec![atom("byte"), num(range.0), num(range.1)]),
     }
 }
